@@ -171,6 +171,19 @@ class Model:
                 return True
         return False
 
+    def same_choice(self, t, base, added):
+        """Some child of `base` (of another tag than the added ones) excludes the added children all by itself: the
+        added children are fine alone, that child is fine alone, together they never validate (two members of one
+        exclusive choice)."""
+        if not added or not self.placeable(t, [], list(added)):
+            return False
+        for x in dict.fromkeys(base):
+            if x in added:
+                continue
+            if self.valid(t, [x]) and not self.placeable(t, [x], list(added)):
+                return True
+        return False
+
     # -- contexts ----------------------------------------------------------------------------------
     def repeatable(self, t):
         """Type has a particle (element or compositor holding an element) with maxOccurs > 1."""
